@@ -362,8 +362,22 @@ func walkPath(src reflect.Value, p []string) (reflect.Value, bool, error) {
 		}
 		sf, ok := curT.FieldByName(name)
 		if !ok || len(sf.Index) != 1 {
-			// may be a method
-			return reflect.Value{}, false, &Unsupported{"path element " + name + " is not a direct field"}
+			// an argument-less method of the source struct used as a field
+			mt, found := reflect.PointerTo(curT).MethodByName(name)
+			if !found || mt.Type.NumIn() != 1 || mt.Type.NumOut() < 1 {
+				return reflect.Value{}, false, &Unsupported{"path element " + name + " is neither a direct field nor an argument-less method"}
+			}
+			curT = mt.Type.Out(0)
+			if !nilHit {
+				recv := reflect.New(cur.Type())
+				recv.Elem().Set(forceIface(cur))
+				outs := recv.MethodByName(name).Call(nil)
+				if len(outs) == 2 && !outs[1].IsNil() {
+					return reflect.Value{}, false, &RefError{Err: outs[1].Interface().(error), Path: []string{name}}
+				}
+				cur = outs[0]
+			}
+			continue
 		}
 		curT = sf.Type
 		if !nilHit {
